@@ -46,7 +46,8 @@ def mc_body(cfg):
 
 def cfg_text(cfg, design):
     lines = ["SPECIFICATION Spec", "CONSTANTS",
-             " Max = %d" % cfg["max"], " IE = %s" % tla_str(cfg["ie"]), " Menu <- mc_Menu", " NMsg = %d" % cfg["nmsg"],
+             " Max = %d" % cfg["max"], " IE = %s" % tla_str(cfg["ie"]), " Rule1 = %s" % tla_str(cfg.get("rule1", "front")),
+             " Menu <- mc_Menu", " NMsg = %d" % cfg["nmsg"],
              " Ids <- mc_Ids", " RdMax = %d" % cfg["rdmax"], " RINs <- mc_RINs", " ProbeN = %d" % PROBE_N,
              " ProbeIds <- mc_ProbeIds", "CONSTRAINT Bound"]
     if design:
